@@ -32,8 +32,31 @@ pub enum Op {
 pub struct Scn {
     pub world: WorldSpec,
     pub policy: PolicyKind,
-    pub history: Vec<Op>,
+    /// Histories executed one after the other on ONE fresh thread, each on its own fresh shared
+    /// parser. Usually a single history; more than one only when the violation needs state that an
+    /// earlier history left behind in the thread (thread-local storage).
+    pub histories: Vec<Vec<Op>>,
     pub class: String,
+}
+
+/// Run `f` on a brand-new OS thread (clean thread-local state).
+pub fn on_fresh_thread<R: Send>(f: impl FnOnce() -> R + Send) -> R {
+    std::thread::scope(|s| {
+        std::thread::Builder::new()
+            .stack_size(16 << 20)
+            .spawn_scoped(s, f)
+            .expect("spawn thread")
+            .join()
+            .unwrap_or_else(|p| std::panic::resume_unwind(p))
+    })
+}
+
+/// The amnesiac oracle: fresh parser, freshly parsed template, fresh thread.
+pub fn clean_expected(spec: &WorldSpec, policy: PolicyKind, srcs: &[String], globals: &[SimGlobals], call: &Call) -> Result<Outcome, String> {
+    on_fresh_thread(|| {
+        crate::sched::set_hash_stream(Some(spec.hash_base ^ 0xBEEF));
+        fresh_expected(spec, policy, srcs, globals, call)
+    })
 }
 
 pub fn pick_policy(rng: &mut Rng) -> PolicyKind {
@@ -60,22 +83,22 @@ pub fn alphabet(spec: &WorldSpec, policy: PolicyKind, srcs: &[String], globals: 
     for t in 0..spec.templates.len() {
         for d in 0..spec.datas.len() {
             let b = Call { t, d, mode: Mode::Buffered };
-            let eb = fresh_expected(spec, policy, srcs, globals, &b)?;
+            let eb = clean_expected(spec, policy, srcs, globals, &b)?;
             letters.push((b, eb));
             let s = Call { t, d, mode: Mode::Streamed };
-            let es = fresh_expected(spec, policy, srcs, globals, &s)?;
+            let es = clean_expected(spec, policy, srcs, globals, &s)?;
             // number of writes of the fault-free run, to place the fault inside it
-            let w = {
+            let w = on_fresh_thread(|| -> Result<usize, String> {
                 let wd = spec.build(policy)?;
                 let tt = world::parse(&wd.parser, &srcs[t])?;
                 let g: &dyn liquid::ObjectView = &globals[d];
-                world::render_streamed(&tt, g, &FaultPlan::none()).1.logical_calls
-            };
+                Ok(world::render_streamed(&tt, g, &FaultPlan::none()).1.logical_calls)
+            })?;
             letters.push((s, es));
             if w > 0 {
                 let plan = FaultPlan::hard(1 + rng.below(w), *rng.pick(&kinds), rng.chance(1, 2));
                 let f = Call { t, d, mode: Mode::Faulted(plan) };
-                let ef = fresh_expected(spec, policy, srcs, globals, &f)?;
+                let ef = clean_expected(spec, policy, srcs, globals, &f)?;
                 letters.push((f, ef));
             }
         }
@@ -160,12 +183,52 @@ fn history_show(h: &[Op]) -> Vec<String> {
         .collect()
 }
 
-fn check_scn(scn: &Scn, rep: &mut RunReport) -> Result<Option<(usize, String, String)>, String> {
+/// Run several histories one after the other on the current thread. Returns (history index,
+/// op index, class, detail) of the first violation.
+fn run_histories(
+    spec: &WorldSpec,
+    policy: PolicyKind,
+    srcs: &[String],
+    globals: &[SimGlobals],
+    pristine: &[liquid::Object],
+    histories: &[Vec<Op>],
+    expect: &mut dyn FnMut(&Call) -> Result<Outcome, String>,
+    rep: &mut RunReport,
+) -> Result<Option<(usize, usize, String, String)>, String> {
+    for (hi, h) in histories.iter().enumerate() {
+        if let Some((at, class, detail)) = run_history(spec, policy, srcs, globals, pristine, h, expect, rep)? {
+            let detail = if histories.len() > 1 { format!("history #{hi} (of {} run on one thread): {detail}", histories.len()) } else { detail };
+            return Ok(Some((hi, at, class, detail)));
+        }
+    }
+    Ok(None)
+}
+
+/// Execute a scenario from scratch: one fresh thread for its histories, clean-thread oracle.
+fn check_scn(scn: &Scn, rep: &mut RunReport) -> Result<Option<(usize, usize, String, String)>, String> {
     let srcs = scn.world.sources();
     let globals = scn.world.globals();
     let pristine: Vec<liquid::Object> = globals.iter().map(|g| g.inner.clone()).collect();
-    let mut expect = |c: &Call| fresh_expected(&scn.world, scn.policy, &srcs, &globals, c);
-    run_history(&scn.world, scn.policy, &srcs, &globals, &pristine, &scn.history, &mut expect, rep)
+    // expectations first (each on its own fresh thread), memoised per distinct call
+    let mut memo: Vec<(Call, Outcome)> = vec![];
+    for h in &scn.histories {
+        for op in h {
+            if let Op::Call(c) = op {
+                if !memo.iter().any(|(k, _)| k == c) {
+                    let e = clean_expected(&scn.world, scn.policy, &srcs, &globals, c)?;
+                    memo.push((c.clone(), e));
+                }
+            }
+        }
+    }
+    let mut local = RunReport::default();
+    let r = on_fresh_thread(|| {
+        crate::sched::set_hash_stream(Some(scn.world.hash_base ^ 0xBEEF));
+        let mut expect = |c: &Call| memo.iter().find(|(k, _)| k == c).map(|(_, e)| e.clone()).ok_or_else(|| "no expectation".to_string());
+        run_histories(&scn.world, scn.policy, &srcs, &globals, &pristine, &scn.histories, &mut expect, &mut local)
+    });
+    rep.evals += local.evals;
+    r
 }
 
 impl Engine for C09 {
@@ -221,8 +284,40 @@ impl Engine for C09 {
             letters.iter().find(|(l, _)| l == c).map(|(_, e)| e.clone()).ok_or_else(|| "letter without expectation".to_string())
         };
         let a = letters.len();
+        // every history this run executed on its thread, in order (needed to isolate violations that
+        // depend on what an earlier history left behind in thread-local storage)
+        let executed: std::cell::RefCell<Vec<Vec<Op>>> = std::cell::RefCell::new(vec![]);
         let report = |hist: Vec<Op>, at: usize, class: String, detail: String, rep: &mut RunReport| {
-            let scn = Scn { world: spec.clone(), policy, history: hist[..(at + 1).min(hist.len())].to_vec(), class: class.clone() };
+            let mut last = hist[..(at + 1).min(hist.len())].to_vec();
+            let _ = &mut last;
+            let ex = executed.borrow();
+            // smallest suffix of the executed histories (ending with the failing one) that reproduces
+            // the violation class from scratch on a fresh thread; usually just the failing history
+            let mut take = 0usize;
+            let mut found: Option<Scn> = None;
+            loop {
+                let start = ex.len().saturating_sub(take);
+                let mut hs: Vec<Vec<Op>> = ex[start..].to_vec();
+                hs.push(last.clone());
+                let cand = Scn { world: spec.clone(), policy, histories: hs, class: class.clone() };
+                let mut scratch = RunReport::default();
+                if matches!(check_scn(&cand, &mut scratch), Ok(Some((_, _, c, _))) if c == class) {
+                    found = Some(cand);
+                    break;
+                }
+                if start == 0 {
+                    break;
+                }
+                take = if take == 0 { 1 } else { take * 2 };
+            }
+            if found.as_ref().map(|f| f.histories.len() > 1).unwrap_or(false) {
+                rep.bump("violations_needing_thread_carried_state", 1);
+            }
+            let scn = found.unwrap_or_else(|| {
+                let mut hs: Vec<Vec<Op>> = ex.clone();
+                hs.push(last.clone());
+                Scn { world: spec.clone(), policy, histories: hs, class: class.clone() }
+            });
             rep.violations.push(Violation { signature: class.clone(), class, detail, scenario: serde_json::to_value(&scn).unwrap() });
         };
         let mut histories = 0u64;
@@ -240,7 +335,7 @@ impl Engine for C09 {
                             report(h, at, class, detail, &mut rep);
                             break 'exh;
                         }
-                        Ok(None) => {}
+                        Ok(None) => executed.borrow_mut().push(h),
                         Err(_) => {
                             rep.bump("discarded_build_or_parse", 1);
                             break 'exh;
@@ -266,7 +361,7 @@ impl Engine for C09 {
                                 report(h, at, class, detail, &mut rep);
                                 break 'exh;
                             }
-                            Ok(None) => {}
+                            Ok(None) => executed.borrow_mut().push(h),
                             Err(_) => break 'exh,
                         }
                     }
@@ -302,7 +397,7 @@ impl Engine for C09 {
                         report(h, at, class, detail, &mut rep);
                         break 'exh;
                     }
-                    Ok(None) => {}
+                    Ok(None) => executed.borrow_mut().push(h),
                     Err(_) => break 'exh,
                 }
             }
@@ -332,10 +427,10 @@ impl Engine for C09 {
     fn replay(&self, scenario: &Json) -> Result<Option<Violation>, String> {
         let scn: Scn = serde_json::from_value(scenario.clone()).map_err(|e| format!("bad C09 scenario: {e}"))?;
         let mut rep = RunReport::default();
-        Ok(check_scn(&scn, &mut rep)?.map(|(_, class, detail)| Violation {
+        Ok(check_scn(&scn, &mut rep)?.map(|(_, _, class, detail)| Violation {
             signature: class.clone(),
             class,
-            detail: format!("{detail}; history: {:?}", history_show(&scn.history)),
+            detail: format!("{detail}; histories: {:?}", scn.histories.iter().map(|h| history_show(h)).collect::<Vec<_>>()),
             scenario: scenario.clone(),
         }))
     }
@@ -345,21 +440,42 @@ impl Engine for C09 {
         let class = v.class.clone();
         let fails = |s: &Scn| {
             let mut rep = RunReport::default();
-            matches!(check_scn(s, &mut rep), Ok(Some((_, c, _))) if c == class)
+            matches!(check_scn(s, &mut rep), Ok(Some((_, _, c, _))) if c == class)
         };
         let candidates = |s: &Scn| -> Vec<Scn> {
             let mut out = vec![];
-            for i in 0..s.history.len() {
+            // drop whole histories (halves first), then single operations
+            let n = s.histories.len();
+            if n >= 4 {
                 let mut c = s.clone();
-                c.history.remove(i);
+                c.histories.drain(0..n / 2);
+                out.push(c);
+                let mut c = s.clone();
+                c.histories.drain(n / 2..n - 1);
                 out.push(c);
             }
-            for (i, op) in s.history.iter().enumerate() {
-                if let Op::Call(call) = op {
-                    if matches!(call.mode, Mode::Streamed | Mode::Faulted(_)) && i + 1 == s.history.len() {
+            if n > 1 {
+                for i in 0..n {
+                    let mut c = s.clone();
+                    c.histories.remove(i);
+                    out.push(c);
+                }
+            }
+            for hi in 0..n {
+                for i in 0..s.histories[hi].len() {
+                    if s.histories[hi].len() > 1 {
                         let mut c = s.clone();
-                        c.history[i] = Op::Call(Call { mode: Mode::Buffered, ..call.clone() });
+                        c.histories[hi].remove(i);
                         out.push(c);
+                    }
+                }
+                for (i, op) in s.histories[hi].iter().enumerate() {
+                    if let Op::Call(call) = op {
+                        if matches!(call.mode, Mode::Streamed | Mode::Faulted(_)) {
+                            let mut c = s.clone();
+                            c.histories[hi][i] = Op::Call(Call { mode: Mode::Buffered, ..call.clone() });
+                            out.push(c);
+                        }
                     }
                 }
             }
@@ -388,7 +504,7 @@ impl Engine for C09 {
         cur.world.fill_sources();
         let mut rep = RunReport::default();
         let detail = match check_scn(&cur, &mut rep) {
-            Ok(Some((_, _, d))) => format!("{d}; history: {:?}", history_show(&cur.history)),
+            Ok(Some((_, _, _, d))) => format!("{d}; histories: {:?}", cur.histories.iter().map(|h| history_show(h)).collect::<Vec<_>>()),
             _ => v.detail.clone(),
         };
         Violation { class: v.class.clone(), signature: v.signature.clone(), detail, scenario: serde_json::to_value(&cur).unwrap() }
